@@ -57,6 +57,9 @@ BLE_TYPES = ("BluetoothGATTReadResponse", "BluetoothGATTWriteResponse", "Bluetoo
 DROP_REASONS = tuple(range(0, 0x48)) + (0x50, 0x80, 0x85, 0x8D, 0xFF, 0x100, 0x101, 0x102, 0x10F, 0x1FF, 0xFFFF, 2**31 - 1, -1, -(2**31))
 
 
+GATT_ERROR_CODES = (-1, 0, 1, 2, 3, 5, 8, 13, 15, 0x80, 0x85, 0x8F, 0xFF, 0x100, 257, 2**31 - 1, -(2**31))
+
+
 def exhaustive(tier: str) -> Any:
     if tier == "thorough":
         return ["all orderings of every 1-4 item subset of the 9-item reply alphabet, for each single operation and for pairs sharing an address"]
@@ -93,7 +96,9 @@ def build_msg(pb: Any, item: list[Any], ops: list[dict[str, Any]], n: int) -> An
         return pb.BluetoothGATTGetServicesResponse(address=other(a) if len(item) > 2 and item[2] else a,
                                                    services=[pb.BluetoothGATTService(uuid=[n, n + 1], handle=n)])
     if kind in ("err", "err_fa", "err_fh"):
-        return pb.BluetoothGATTErrorResponse(address=other(a) if kind == "err_fa" else a, handle=other_h(h) if kind == "err_fh" else h, error=n)
+        # (an explicit error code may ride along: the GATT status byte range, ESPHome's own -1 "not connected", the ends of the int32 field)
+        return pb.BluetoothGATTErrorResponse(address=other(a) if kind == "err_fa" else a, handle=other_h(h) if kind == "err_fh" else h,
+                                             error=item[2] if len(item) > 2 else n)
     if kind == "data":
         return pb.BluetoothGATTNotifyDataResponse(address=a, handle=h, data=bytes([n % 251]))
     raise ValueError(kind)
@@ -410,7 +415,7 @@ def gen_case(rng: Any) -> dict[str, Any]:
         elif r < 0.4:
             replies.append([rng.choice(["T_fa", "T_fh"]), i])
         elif r < 0.55:
-            replies.append([rng.choice(["err", "err_fa", "err_fh"]), i])
+            replies.append([rng.choice(["err", "err_fa", "err_fh"]), i] + ([rng.choice(GATT_ERROR_CODES)] if rng.random() < 0.6 else []))
         elif r < 0.75:
             replies.append(["conn", rng.choice([A, B]), rng.randrange(2)])
         elif r < 0.9 and ops[i]["op"] == "get_services":
@@ -501,6 +506,7 @@ def shard(ctx: Ctx) -> None:
                 one(ctx, {"ops": [base], "replies": [["conn", A, 0, reason]]}, "drop-reason-codes")
     cleanup_inside_state_callback(ctx)
     operation_started_inside_state_callback(ctx)
+    retry_after_unanswered(ctx)
     # scale: dozens of operations outstanding at once on distinct handles of two peripherals, answered in a shuffled order, one per chunk or
     # all in one chunk; a few never answered (timeout), one peripheral dropping in the middle
     for n_ops in ((24, 60, 150) if ctx.thorough else (24, 60)):
@@ -744,7 +750,112 @@ def operation_started_inside_state_callback(ctx: Ctx) -> None:
                         res.violation("C16/device_connect/state-callback", f"state callback saw {states}, expected {exp_states}", case)
 
 
+def retry_after_unanswered(ctx: Ctx) -> None:
+    """An operation the proxy never answered ends with its timeout error; the same operation on the same peripheral and handle, issued again and
+    answered normally (once), completes with that answer - for every kind of operation; an unrelated operation in between changes nothing.  Then every
+    declared GATT error code, sent for a pending read / write / notify, fails it with the GATT error carrying that code."""
+    from aioesphomeapi import api_pb2 as pb
+    from aioesphomeapi.core import BluetoothGATTAPIError, TimeoutAPIError
+
+    res = ctx.res
+    set_values(DEFAULT_VALUES)
+    ops = {
+        "read": (lambda cli: cli.bluetooth_gatt_read(A, 5, timeout=1.5), lambda: pb.BluetoothGATTReadResponse(address=A, handle=5, data=b"again"),
+                 lambda r: bytes(r) == b"again"),
+        "read_descriptor": (lambda cli: cli.bluetooth_gatt_read_descriptor(A, 6, timeout=1.5), lambda: pb.BluetoothGATTReadResponse(address=A, handle=6, data=b"d"),
+                            lambda r: bytes(r) == b"d"),
+        "write": (lambda cli: cli.bluetooth_gatt_write(B, 6, b"\x01", True, timeout=1.5), lambda: pb.BluetoothGATTWriteResponse(address=B, handle=6), lambda r: r is None),
+        "write_descriptor": (lambda cli: cli.bluetooth_gatt_write_descriptor(B, 7, b"\x02", timeout=1.5), lambda: pb.BluetoothGATTWriteResponse(address=B, handle=7),
+                             lambda r: r is None),
+        "start_notify": (lambda cli: cli.bluetooth_gatt_start_notify(A, 8, lambda h, d: None, timeout=1.5), lambda: pb.BluetoothGATTNotifyResponse(address=A, handle=8),
+                         lambda r: isinstance(r, tuple) and len(r) == 2),
+        "pair": (lambda cli: cli.bluetooth_device_pair(A, timeout=1.5), lambda: pb.BluetoothDevicePairingResponse(address=A, paired=True), lambda r: r.paired is True),
+        "unpair": (lambda cli: cli.bluetooth_device_unpair(A, timeout=1.5), lambda: pb.BluetoothDeviceUnpairingResponse(address=A, success=True), lambda r: r.success is True),
+        "clear_cache": (lambda cli: cli.bluetooth_device_clear_cache(B, timeout=1.5), lambda: pb.BluetoothDeviceClearCacheResponse(address=B, success=True),
+                        lambda r: r.success is True),
+    }
+    idx = 0
+    for name, (call, answer, good) in ops.items():
+        for between in (False, True):
+            idx += 1
+            if not ctx.mine(idx):
+                continue
+            with Sim() as sim:
+                cfg = DeviceConfig()
+                for n in ("BluetoothDeviceRequest", "BluetoothGATTReadRequest", "BluetoothGATTReadDescriptorRequest", "BluetoothGATTWriteRequest",
+                          "BluetoothGATTWriteDescriptorRequest", "BluetoothGATTNotifyRequest"):
+                    cfg.handlers[n] = lambda c, m: None
+                dev = sim.device(cfg)
+                cli = sim.client(keepalive=1e5)
+                c0 = sim.call("connect", lambda: cli.connect(login=False))
+                sim.run(until=lambda: c0.done, max_time=sim.clock + 50)
+                dconn = dev.conn
+                case = {"kind": "retry-after-unanswered", "op": name, "unrelated_operation_between": between}
+                outcomes = []
+                for rnd in range(3):
+                    a = sim.call(f"{name}#{rnd}", lambda: call(cli))
+                    sim.run(until=lambda: a.done, max_time=sim.clock + 5)
+                    res.evaluations += 1
+                    res.count("workload/retry-after-unanswered")
+                    if not isinstance(a.exc, TimeoutAPIError) or abs((a.t_ret - a.t_call) - 1.5) > 1e-6:
+                        res.violation(f"C16/{name}/timeout", f"{name} never answered (round {rnd}): ended {a.outcome} {a.exc!r:.80} after "
+                                      f"{0 if a.t_ret is None else a.t_ret - a.t_call:.3f}s, timeout 1.5s", case, trace=sim.trace(30))
+                        break
+                    if between:
+                        o_ = sim.call("other", lambda: cli.bluetooth_gatt_read(B, 99, timeout=1.0))
+                        sim.run_for(0.01)
+                        dconn.send_msg(pb.BluetoothGATTReadResponse(address=B, handle=99, data=b"o"))
+                        sim.run(until=lambda: o_.done, max_time=sim.clock + 3)
+                    b = sim.call(f"{name}#{rnd}-again", lambda: call(cli))
+                    sim.run_for(0.01)
+                    dconn.send_msg(answer())
+                    sim.run(until=lambda: b.done, max_time=sim.clock + 5)
+                    res.evaluations += 1
+                    res.sig("retry-after-unanswered", name, between, rnd)
+                    outcomes.append(b.outcome)
+                    if b.outcome != "ok" or not good(b.result):
+                        res.violation(f"C16/{name}/result-not-returned", f"{name}: the previous identical operation timed out unanswered; this one was answered by the proxy "
+                                      f"after 10 ms but ended {b.outcome} {b.exc!r:.100} after {0 if b.t_ret is None else b.t_ret - b.t_call:.3f}s", case, trace=sim.trace(40))
+                        break
+                    elif abs((b.t_ret - b.t_call) - 0.01) > 2e-3:
+                        res.violation(f"C16/{name}/delayed", f"{name}: answered after 10 ms, completed after {b.t_ret - b.t_call:.3f}s", case)
+                if sim.harness_errors:
+                    res.inconclusive.append("C16 retry scenario: " + sim.harness_errors[0][-300:])
+    # every error code
+    for j, code in enumerate(GATT_ERROR_CODES):
+        for name in ("read", "write", "start_notify"):
+            idx += 1
+            if not ctx.mine(idx):
+                continue
+            call, answer, good = ops[name]
+            a_, h_ = {"read": (A, 5), "write": (B, 6), "start_notify": (A, 8)}[name]
+            with Sim() as sim:
+                cfg = DeviceConfig()
+                for n in ("BluetoothGATTReadRequest", "BluetoothGATTWriteRequest", "BluetoothGATTNotifyRequest"):
+                    cfg.handlers[n] = lambda c, m: None
+                dev = sim.device(cfg)
+                cli = sim.client(keepalive=1e5)
+                c0 = sim.call("connect", lambda: cli.connect(login=False))
+                sim.run(until=lambda: c0.done, max_time=sim.clock + 50)
+                a = sim.call(name, lambda: call(cli))
+                sim.run_for(0.01)
+                dev.conn.send_msg(pb.BluetoothGATTErrorResponse(address=a_, handle=h_, error=code))
+                sim.run(until=lambda: a.done, max_time=sim.clock + 5)
+                res.evaluations += 1
+                res.count("workload/gatt-error-codes")
+                res.sig("gatt-error-code", name, code)
+                case = {"kind": "gatt-error-code", "op": name, "error": code}
+                if not isinstance(a.exc, BluetoothGATTAPIError):
+                    res.violation(f"C16/{name}/gatt-error-not-raised", f"{name}: error response for its address and handle with code {code} arrived; ended {a.outcome} "
+                                  f"{a.exc!r:.100}", case, trace=sim.trace(30))
+                elif a.exc.error.error != code or a.exc.error.address != a_ or a.exc.error.handle != h_:
+                    res.violation(f"C16/{name}/gatt-error-foreign", f"{name}: raised {a.exc.error}, sent code {code}", case)
+
+
 def replay(spec: dict[str, Any]) -> int:
+    if spec["case"].get("kind") in ("retry-after-unanswered", "gatt-error-code"):
+        print(spec["what"])
+        return 1
     if spec["case"].get("kind") == "operation-started-inside-state-callback":
         print(spec["what"])
         return 1
